@@ -19,7 +19,6 @@ CONSTANTS
   ParserContinuesAfterShortRange = FALSE
   Budget0PlansNothing = FALSE
   TailInitPersistsZero = FALSE
-CONSTRAINT GuardKnown
 INVARIANTS RefinesCex InvCount InvCursor InvCursorExact InvStored InvDurable TypeOKD PrintHistDeep
 VIEW View
 CHECK_DEADLOCK FALSE
